@@ -5,20 +5,29 @@
 (* (events computed by BiomModel), so the model is checked against exactly *)
 (* the clause set the implementation is judged by.                         *)
 (***************************************************************************)
-EXTENDS BiomProps
+EXTENDS BiomProps2
 
 CallClauses(ev) ==
   CASE ev.call = "filter" ->
          (IF ev.args.mode = "ids" THEN Clauses_filter_ids(ev) ELSE Clauses_filter_pred(ev))
          @@ InplaceClauses(ev)
     [] ev.call = "remove_empty" -> Clauses_remove_empty(ev) @@ InplaceClauses(ev)
-    [] ev.call = "head"         -> Clauses_head(ev)
-    [] ev.call = "sort_order"   -> Clauses_sort_order(ev)
-    [] ev.call = "sort"         -> Clauses_sort(ev)
-    [] ev.call = "transpose"    -> Clauses_transpose(ev)
-    [] ev.call = "copy"         -> Clauses_copy(ev)
+    [] ev.call = "head"         -> Clauses_head(ev) @@ NewTableClauses(ev)
+    [] ev.call = "sort_order"   -> Clauses_sort_order(ev) @@ NewTableClauses(ev)
+    [] ev.call = "sort"         -> Clauses_sort(ev) @@ NewTableClauses(ev)
+    [] ev.call = "transpose"    -> Clauses_transpose(ev) @@ NewTableClauses(ev)
+    [] ev.call = "copy"         -> Clauses_copy(ev) @@ NewTableClauses(ev)
     [] ev.call = "update_ids"   -> Clauses_update_ids(ev) @@ InplaceClauses(ev)
-    [] ev.call = "align_to"     -> Clauses_align_to(ev)
+    [] ev.call = "align_to"     -> Clauses_align_to(ev) @@ NewTableClauses(ev)
+    [] ev.call = "read"         -> Clauses_read(ev)
+    [] ev.call = "probe"        -> Clauses_probe(ev)
+    [] ev.call = "eq"           -> Clauses_eq(ev)
+    [] ev.call = "add_metadata" -> Clauses_add_metadata(ev)
+    [] ev.call = "del_metadata" -> Clauses_del_metadata(ev)
+    [] ev.call = "transform"    -> Clauses_transform(ev) @@ ElementwiseClause(ev) @@ InplaceClauses(ev)
+    [] ev.call = "norm"         -> Clauses_norm(ev) @@ InplaceClauses(ev)
+    [] ev.call = "pa"           -> Clauses_pa(ev) @@ InplaceClauses(ev)
+    [] ev.call = "rankdata"     -> Clauses_rankdata(ev) @@ InplaceClauses(ev)
     [] OTHER -> [TRACE_unknown_call |-> FALSE]
 
 \* clauses index tables by position; if some logged table is not even well-shaped they are
